@@ -3,6 +3,8 @@
 package vfmem
 
 import (
+	"bytes"
+	"encoding/gob"
 	"encoding/json"
 	"errors"
 	"sort"
@@ -73,7 +75,7 @@ func (a *Adapter) cloneDBLocked() []byte { return SnapshotLocked(a.db) }
 
 func (a *Adapter) restoreLocked(b []byte) {
 	db := newDB()
-	json.Unmarshal(b, db)
+	gob.NewDecoder(bytes.NewReader(b)).Decode(db)
 	if db.Users == nil {
 		db.Users = map[t.Uid]*UserRow{}
 	}
